@@ -396,6 +396,136 @@ func unescape(c *explore.Ctx) {
 	c.Case(map[string]any{"string_literal": trunc(d)})
 }
 
+// ---- ',string' fields: the content of the string is not JSON, it is whatever encoding/json's literal store accepts
+
+type soFloat64 struct {
+	F float64 `json:",string"`
+}
+type soFloat32 struct {
+	F float32 `json:",string"`
+}
+type soInt struct {
+	F int `json:",string"`
+}
+type soInt8 struct {
+	F int8 `json:",string"`
+}
+type soUint16 struct {
+	F uint16 `json:",string"`
+}
+type soUint64 struct {
+	F uint64 `json:",string"`
+}
+type soBool struct {
+	F bool `json:",string"`
+}
+type soString struct {
+	F string `json:",string"`
+}
+type soPFloat64 struct {
+	F *float64 `json:",string"`
+}
+type soPInt struct {
+	F *int `json:",string"`
+}
+type soPBool struct {
+	F *bool `json:",string"`
+}
+type soPString struct {
+	F *string `json:",string"`
+}
+type soNumber struct {
+	F json.Number `json:",string"`
+}
+type soAny struct {
+	F any `json:",string"`
+}
+type soPPFloat struct {
+	F **float64 `json:",string"`
+}
+type soNamedFloat struct {
+	F jgen.NamedInt `json:",string"`
+	G float64       `json:"g,string,omitempty"`
+}
+
+var soTypes = []reflect.Type{
+	jgen.T[soFloat64](), jgen.T[soFloat32](), jgen.T[soInt](), jgen.T[soInt8](), jgen.T[soUint16](), jgen.T[soUint64](), jgen.T[soBool](), jgen.T[soString](),
+	jgen.T[soPFloat64](), jgen.T[soPInt](), jgen.T[soPBool](), jgen.T[soPString](), jgen.T[soNumber](), jgen.T[soAny](), jgen.T[soPPFloat](), jgen.T[soNamedFloat](),
+}
+
+var jsonNumberRE = regexp.MustCompile(`^-?(0|[1-9][0-9]*)(\.[0-9]+)?([eE][+-]?[0-9]+)?$`)
+
+var soTokens = []string{"0", "1", "9", "-", "+", ".", "e", "x", "p", "_", " ", "true", "false", "null", `\"`, "a", "Inf", "NaN", `\n`, `\u0031`}
+
+func stringOption(c *explore.Ctx) {
+	t := soTypes[c.Choose(len(soTypes))]
+	first := c.Choose(len(soTokens) + 1) // first token (or none)
+	maxLen := 3
+	if c.Thorough() {
+		maxLen = 4
+	}
+	var contents []string
+	var rec func(prefix string, n int)
+	rec = func(prefix string, n int) {
+		contents = append(contents, prefix)
+		if n == 0 {
+			return
+		}
+		for _, tk := range soTokens {
+			rec(prefix+tk, n-1)
+		}
+	}
+	if first == len(soTokens) {
+		contents = []string{""}
+	} else {
+		rec(soTokens[first], maxLen-1)
+	}
+	var n int64
+	for _, content := range contents {
+		for _, doc := range []string{`{"F":"` + content + `"}`, `{"F":` + strings.ReplaceAll(content, `\"`, `"`) + `}`, `{"g":"` + content + `","F":"1"}`} {
+			for _, preset := range []bool{false, true} {
+				segT, stdT := reflect.New(t), reflect.New(t)
+				if preset {
+					// a prior successful decode leaves pointers allocated and values set
+					pre := []byte(`{"F":"7"}`)
+					if t == jgen.T[soBool]() || t == jgen.T[soPBool]() {
+						pre = []byte(`{"F":"true"}`)
+					} else if t == jgen.T[soString]() || t == jgen.T[soPString]() {
+						pre = []byte(`{"F":"\"s\""}`)
+					}
+					stdjson.Unmarshal(pre, stdT.Interface())
+					stdjson.Unmarshal(pre, segT.Interface())
+				}
+				n++
+				var plain struct{ F any }
+				inner, _ := "", stdjson.Unmarshal([]byte(doc), &plain)
+				if sv, ok := plain.F.(string); ok {
+					inner = sv
+				}
+				if t == jgen.T[soNumber]() && len(inner) > 0 && (inner[0] == '-' || inner[0] >= '0' && inner[0] <= '9') && !jsonNumberRE.MatchString(inner) {
+					// one phenomenon, one signature: encoding/json stores any content that starts like a number
+					// into a Number field tagged ',string' without validating it ("00", "0x", "1 a")
+					var serr, rerr error
+					explore.Catch(func() { rerr = stdjson.Unmarshal([]byte(doc), stdT.Interface()) })
+					pv, _ := explore.Catch(func() { serr = json.Unmarshal([]byte(doc), segT.Interface()) })
+					if pv == nil && rerr == nil && serr != nil {
+						c.Fail("rejects:string-option:Number-field-with-number-like-but-invalid-content", "Unmarshal(%s) into %s fails (%v), encoding/json stores the content unvalidated", doc, t.Name(), serr)
+						continue
+					}
+					segT, stdT = reflect.New(t), reflect.New(t)
+				}
+				step(c, entries[0], t, []byte(doc), segT, stdT, "string-option:"+t.Name(), fmt.Sprintf("preset=%v", preset))
+			}
+		}
+	}
+	c.Inner(n)
+	c.NontrivialStr("so", t.Name(), fmt.Sprint(first))
+	c.Outcome("type=" + t.Name())
+	if c.WantSample() || c.Failed() {
+		c.Case(map[string]any{"type": t.Name(), "first_token": first, "documents": n})
+	}
+}
+
 // Spec returns the C02 check.
 func Spec() *explore.Spec {
 	return &explore.Spec{
@@ -410,6 +540,7 @@ func Spec() *explore.Spec {
 				Doc: "every type shape of C01's universe (~6700) x {valid documents derived from the type's domain, 200 literal documents: number/string/key tables, malformed forms} x prior state {zero, 6 pre-set values incl. interface-held pointers, result of decoding an earlier document} x entry {Unmarshal, Parse, Decoder x UseNumber x DisallowUnknownFields}; one non-default choice among (entry, prior) per case (two in thorough)"},
 			{Name: "mutated", ShardDepth: 1, Body: mutated, Doc: "leaf / hand-written / map / first-level wrapper types x valid documents x every truncation, deletion, substitution and insertion over a 16-byte class alphabet"},
 			{Name: "token-seqs", ShardDepth: 2, Body: tokenSeqs, Doc: "all token sequences up to 4 (5 thorough) over 18 tokens x 25 target types"},
+			{Name: "string-option", ShardDepth: 2, Body: stringOption, Doc: "struct fields tagged ',string' of 16 kinds (floats, signed/unsigned integers, bool, string, pointers to them, Number, any) x every content string built from <= 3 (thorough 4) of 20 tokens (digits, signs, dot, exponent and hex letters, underscore, white space, true/false/null, escaped quotes, Inf, NaN, escapes) - quoted and bare - x {zero, pre-set} target"},
 			{Name: "unescape", Body: unescape, Doc: "Unescape / AppendUnescape on every string literal of the table"},
 		},
 		Rule: "every (type, document, prior state, entry point) within the deviation bound, plus complete mutation sets and token sequences; distinct non-trivial = distinct tuples / blocks",
